@@ -275,7 +275,7 @@ def WFText (E : Ext) : Term → Prop
   | .lit x d l =>
     (l = none ∨ d = none) ∧ (∀ t, l = some t → validLangTag t = true) ∧
     (∀ u, d = some u → u ≠ [] ∧ isValidUri u = true) ∧
-    (∀ u, d = some u → u ∈ Tables.infNanTypes → E.floatKind x = .other)
+    (∀ u, d = some u → u ∈ Tables.infNanTypes → RespellNoop E x)
 
 /-- constructing a literal from this lexical form leaves it alone (it is normalised already, or
     normalisation is off and the xsd:token / xsd:normalizedString white-space rule is met) -/
@@ -383,6 +383,28 @@ theorem n3_roundtrip_witness : ¬ Statement_n3_roundtrip := by
   have := h normExt true (.lit ['0', '1'] (some ['x']) none) _ normExt_ok hw rfl
   revert this
   decide
+
+/-- the INF / NaN clause of `WFText` cannot be dropped: a literal of xsd:float / double / decimal whose lexical form is a
+    float infinity or NaN in another spelling (`inf`, `Infinity`, `nan`) is WRITTEN as `INF` / `NaN`, so a reader that keeps
+    lexical forms gives back another term (finding C07-K5).  With the clause (`RespellNoop`: the respelling leaves the text
+    alone — `INF`, `-INF`, `NaN` and everything that is not a float infinity / NaN) the round trip is `n3_roundtrip_partial`. -/
+def Statement_n3_roundtrip_respelled : Prop :=
+  ∀ (E : Ext) (x u txt : Str), ExtOK E → u ≠ [] → isValidUri u = true →
+    n3 E (.lit x (some u) none) = some txt → fromN3 E false txt = .term (.lit x (some u) none)
+
+def xsdDouble : Str := "http://www.w3.org/2001/XMLSchema#double".toList
+def xsdDecimal : Str := "http://www.w3.org/2001/XMLSchema#decimal".toList
+
+theorem drvExt_ok : ExtOK drvExt :=
+  ⟨fun _ _ => rfl, by decide, by decide, fun s => ⟨lower s, by simp [drvExt, lower, lowerChar]⟩,
+   fun s => ⟨lower s, by simp [drvExt, lower, lowerChar]⟩, by decide,
+   fun s h => List.mem_map.mpr ⟨':', h, by decide⟩⟩
+
+theorem n3_roundtrip_respelled_witness : ¬ Statement_n3_roundtrip_respelled := by
+  intro h
+  have := h drvExt "inf".toList xsdDouble _ drvExt_ok (by decide) (by decide) rfl
+  revert this
+  decide +kernel
 
 /-- with normalisation off and a datatype other than xsd:token / xsd:normalizedString nothing is assumed
     about the lexical form at all -/
@@ -732,6 +754,16 @@ example : fromN3 { drvExt with nsm := some exTbl } false "\"1\"^^ex:dt".toList =
 example : IriSpelling exTbl "http://e/dt".toList "ex:dt".toList :=
   Or.inr ⟨['e', 'x'], ['d', 't'], "http://e/".toList, rfl, ⟨⟨'e', ['x'], rfl, by decide⟩, by decide⟩, by decide, rfl,
     by decide, by decide⟩
+/-- the canonical spellings pass the INF / NaN clause, the others do not -/
+example : RespellNoop drvExt "INF".toList ∧ RespellNoop drvExt "-INF".toList ∧ RespellNoop drvExt "NaN".toList ∧
+    RespellNoop drvExt "1.5".toList ∧ ¬ RespellNoop drvExt "inf".toList ∧ ¬ RespellNoop drvExt "Infinity".toList ∧
+    ¬ RespellNoop drvExt "nan".toList := by
+  decide +kernel
+example : xsdDouble ∈ Tables.infNanTypes ∧ xsdDecimal ∈ Tables.infNanTypes := by decide
+example : n3 drvExt (.lit "Infinity".toList (some xsdDecimal) none) = n3 drvExt (.lit "INF".toList (some xsdDecimal) none) := by
+  decide +kernel
+example : fromN3 drvExt false ((n3 drvExt (.lit "-INF".toList (some xsdDouble) none)).getD []) =
+    .term (.lit "-INF".toList (some xsdDouble) none) := by decide +kernel
 example : eqb (.lit ['a'] none (some ['e', 'n'])) (.lit ['a'] none (some ['E', 'N'])) = true := by decide
 example : Reachable drvExt exLit :=
   .lit false ['a', '"', '\\', '\n', '"'] (some ['e', 'n']) none _ (by simp [mkLit, newLex, wsNorm, exLit]; decide)
